@@ -25,8 +25,9 @@ import (
 //              msgtx|msgblk|msgmined|cmsgblk <text>   raw tx / block carried inside a wire-framed message
 //   impl line: ok <dump> re=… | err <class> | panic | nopanic | big
 // Direct oracle (implementation alone): no panic; TotalAlloc of the decode call <= allocK*len + allocK0.
-// Inputs whose declared suplink count would make the real decoder allocate >= 1 GiB are NOT
-// executed: they are recorded as oracle failures and answered `big`.
+// At start-up the harness probes whether the implementation under test preallocates the declared
+// number of suplinks (a 2^20-entry header); only if it does, inputs whose declared count would
+// allocate >= 1 GiB are NOT executed: they are recorded as oracle failures and answered `big`.
 
 const (
 	sigF2       = "mapinputs-panic-unknown-asset-version"
@@ -124,8 +125,18 @@ func decodeOnly(kind string, text []byte) (panicMsg string, alloc uint64) {
 	return
 }
 
+// preallocates: does SupLinks.readFrom allocate the declared count up front? (probed once)
+var preallocates bool
+
+func probePrealloc() {
+	z := strings.Repeat("00", 32)
+	text := []byte("01" + "00" + "00" + z + "00" + "20" + z + "0100" + "03808040")
+	_, alloc := decodeOnly("hdr", text)
+	preallocates = alloc >= 8<<20
+}
+
 func c05Codec(c *Ctx, opKind, kind string, text []byte, line string) {
-	if kind == "hdr" || kind == "blk" {
+	if preallocates && (kind == "hdr" || kind == "blk") {
 		if size, ok := declaredSupLinks(text); ok && size*8 >= bigPrealloc {
 			c.Op(line, "big")
 			c.Count("outcome:big-not-executed")
@@ -421,7 +432,9 @@ func runC05(c *Ctx) {
 		c.Extra["max_alloc_ratio_bytes_per_text_byte"] = c05st.maxRatio
 		c.Extra["max_alloc_ratio_sample"] = c05st.maxSample
 		c.Extra["alloc_bound"] = fmt.Sprintf("%d*len(text)+%d", allocK, allocK0)
+		c.Extra["implementation_preallocates_suplinks"] = preallocates
 	}()
+	probePrealloc()
 	if c.Replay != "" {
 		for _, l := range c.ReplayLines() {
 			c05Line(c, l)
@@ -499,7 +512,8 @@ func runC05(c *Ctx) {
 			c.Distinct(string(text))
 		default: // generated value, possibly mutated, possibly wrapped in a message
 			kind := kinds[c.Rng.Intn(len(kinds))]
-			g.allowBadAV, g.allowSCSuffix = c.Rng.Intn(4) == 0, c.Rng.Intn(10) == 0
+			g.allowBadAV, g.allowSCSuffix = c.Rng.Intn(4) == 0, c.Rng.Intn(4) == 0
+			g.allowBadAVIn = g.allowBadAV
 			var text []byte
 			switch kind {
 			case "tx", "txd":
